@@ -316,7 +316,8 @@ def _softmax_batch_rule(
             None,
         )
 
-    rank = x.ndim
+    # ``axis`` addresses the per-example operand, i.e. the array without its batch dimension
+    rank = x.ndim - (1 if x_bdim is not None else 0)
     canon_axis = axis if axis >= 0 else axis + rank
     if canon_axis < 0 or canon_axis >= rank:
         raise ValueError("Invalid axis for softmax batching rule")
@@ -326,14 +327,7 @@ def _softmax_batch_rule(
     if where is not None and where_bdim is not None and where_bdim != 0:
         where = jnp.moveaxis(where, where_bdim, 0)
 
-    if x_bdim is None:
-        axis_body = canon_axis
-    elif canon_axis == x_bdim:
-        axis_body = 0
-    elif canon_axis < x_bdim:
-        axis_body = canon_axis
-    else:
-        axis_body = canon_axis - 1
+    axis_body = canon_axis
 
     in_axes: tuple[int | None, ...] = (0 if x_bdim is not None else None,)
     if has_where:
